@@ -583,10 +583,30 @@ type countReporter struct {
 	closeAt int
 	ch      chan struct{}
 	closed  bool
+	// transient write faults: once `liftAt` bytes have been reported the size limit is lifted again
+	total  uint64
+	liftAt uint64
+	lifted bool
+	oldLim syscall.Rlimit
+	path   string
 }
 
-func (r *countReporter) ReportBytesWritten(uint64) {
+func fileSize(p string) int64 {
+	st, err := os.Stat(p)
+	if err != nil {
+		return -1
+	}
+	return st.Size()
+}
+
+func (r *countReporter) ReportBytesWritten(nb uint64) {
 	r.n++
+	r.total += nb
+	if r.liftAt > 0 && !r.lifted && r.total >= r.liftAt && fileSize(r.path) >= int64(r.liftAt) {
+		// the device has room again: the failure was a transient one
+		syscall.Setrlimit(syscall.RLIMIT_FSIZE, &r.oldLim)
+		r.lifted = true
+	}
 	if r.closeAt > 0 && r.n == r.closeAt && !r.closed {
 		close(r.ch)
 		r.closed = true
@@ -655,6 +675,11 @@ func (e *Exec) doMerge(c *Cmd, gsuffix string) string {
 			devfull = true
 			call()
 		} else {
+			if c.str("transient", "0") == "1" {
+				syscall.Getrlimit(syscall.RLIMIT_FSIZE, &rep.oldLim)
+				rep.liftAt = uint64(limit)
+				rep.path = p
+			}
 			withFsizeLimit(limit, call)
 		}
 		extra = fmt.Sprintf(" limit=%d full=%d", limit, c.num("full", -1))
@@ -1441,6 +1466,9 @@ func (e *Exec) expand(c *Cmd, out *bufio.Writer) {
 		}
 		if c.Op == "mergefaults" {
 			bufsz := zap.DefaultFileMergerBufferSize
+			if bufsz <= 0 {
+				bufsz = 4096
+			}
 			limits := map[int]bool{0: true, full - 1: true, full: true, full + 1: true}
 			maxPoints := c.num("max", 400)
 			stepB := bufsz
@@ -1461,6 +1489,15 @@ func (e *Exec) expand(c *Cmd, out *bufio.Writer) {
 				}
 			}
 			emit(fmt.Sprintf("%s fsize=0 full=%d devfull=1", base, full))
+			// transient failures (the limit is lifted as soon as it was hit) at every offset of the
+			// tail of the file, where the fields section and the footer are written
+			if tail := c.num("transienttail", 0); tail > 0 {
+				for l := full - tail; l < full-16; l++ {
+					if l > 0 {
+						emit(fmt.Sprintf("%s fsize=%d full=%d transient=1", base, l, full))
+					}
+				}
+			}
 		} else {
 			emit(base + " close=before")
 			emit(base + " close=before keep=1") // an older output is at the path
